@@ -121,19 +121,41 @@ def _last_line(path):
     return None
 
 
-def run_script(exe, script_path, trace_path, episodes, wall_timeout=3600):
-    """Runs the executor over a script, restarting it after a process death.
+def run_script(exe, script_path, trace_path, episodes, wall_timeout=3600, jobs=1):
+    """Runs the executor over a script (with `jobs` > 1: contiguous chunks of episodes in parallel processes, the
+    traces concatenated in episode order)."""
+    n = len(episodes)
+    jobs = max(1, min(jobs, n))
+    if jobs == 1:
+        return _run_chunk(exe, script_path, trace_path, episodes, wall_timeout, 0, n)
+    cuts = [n * k // jobs for k in range(jobs + 1)]
+    parts = [str(trace_path) + ".part%d" % k for k in range(jobs)]
+    with cf.ThreadPoolExecutor(max_workers=jobs) as ex:
+        futs = [ex.submit(_run_chunk, exe, script_path, parts[k], episodes, wall_timeout, cuts[k], cuts[k + 1])
+                for k in range(jobs)]
+        res = [f.result() for f in futs]
+    with open(trace_path, "wb") as out:
+        for p in parts:
+            if os.path.exists(p):
+                with open(p, "rb") as f:
+                    shutil.copyfileobj(f, out)
+                os.remove(p)
+    return {"restarts": sum(r["restarts"] for r in res)}
+
+
+def _run_chunk(exe, script_path, trace_path, episodes, wall_timeout, lo, hi):
+    """Runs the executor over episodes lo..hi-1, restarting it after a process death.
     A death by signal becomes an `abort` event for the operation in flight; a
     watchdog exit (status 3) has already written its `hang` event."""
     if os.path.exists(trace_path):
         os.remove(trace_path)
-    start = 0
+    start = lo
     restarts = 0
     t_end = time.time() + wall_timeout
-    n = len(episodes)
+    n = hi
     while start < n:
         try:
-            p = subprocess.run([str(exe), str(script_path), str(trace_path), "--from", str(start)],
+            p = subprocess.run([str(exe), str(script_path), str(trace_path), "--from", str(start), "--to", str(hi)],
                                stdout=subprocess.PIPE, stderr=subprocess.PIPE, text=True,
                                timeout=max(1, t_end - time.time()))
         except subprocess.TimeoutExpired:
